@@ -83,8 +83,8 @@ Record packet := { k_ip : ip_info; k_tcp : tcp_info }.
 Inductive framed (A : Type) := Unframed | Framed (a : A).
 Arguments Unframed {A}. Arguments Framed {A}.
 
-(* Packet.from_packet on the bytes of an IPv4 (v = 4) or IPv6 (v = 6) datagram *)
-Definition parse_packet (v : Z) (b : list Z) : framed (res packet) :=
+(* Packet.from_packet on the bytes of exactly one IPv4 (v = 4) or IPv6 (v = 6) datagram *)
+Definition parse_datagram (v : Z) (b : list Z) : framed (res packet) :=
   match (if v =? 4 then ip4 b else ip6 b) with
   | None => Unframed
   | Some ip =>
@@ -95,6 +95,21 @@ Definition parse_packet (v : Z) (b : list Z) : framed (res packet) :=
            | Some (Ok t) => Framed (Ok {| k_ip := ip; k_tcp := t |})
            end
   end.
+
+(* Bytes after the end of the datagram (total length / 40 + payload length), e.g. the padding of a short Ethernet frame,
+   are not part of the packet (Scapy dissects them as Padding; p0f cuts the capture at the IP length). *)
+Definition trim (v : Z) (b : list Z) : list Z :=
+  if v =? 4 then
+    match b with
+    | _ :: _ :: l1 :: l2 :: _ => let total := be16 l1 l2 in if total <=? len b then firstn (Z.to_nat total) b else b
+    | _ => b
+    end
+  else
+    match b with
+    | _ :: _ :: _ :: _ :: l1 :: l2 :: _ => let n := 40 + be16 l1 l2 in if n <=? len b then firstn (Z.to_nat n) b else b
+    | _ => b
+    end.
+Definition parse_packet (v : Z) (b : list Z) : framed (res packet) := parse_datagram v (trim v b).
 
 (* TCPPacketSignature.from_packet *)
 Definition sig_of (k : packet) (syn_mss : Z) : pkt_sig :=
